@@ -126,6 +126,70 @@ def _clip_form(repo, f, body, stmt):
   return 'refuted', 'projection is %r, documented %r' % (val.d, want)
 
 
+def rule_projection_formula(repo, rep):
+  R = 'R-FORM:mmc-budget-projection'
+  rep.rule(R, 'the projection onto {w.x <= t} is x0 when w.x0 <= t and '
+           'x0 + (t1 - w1.x0) w1 otherwise, with w1 = w / |w|, t1 = t / |w|; '
+           'the relative violation is (w.A - t) / t')
+  from ..ratfunc import Rat, LinM, eval_expr
+  f = repo.get_func('mmc._BaseMMC._fit_full')
+  defs = {}
+  for n in ast.walk(f.node):
+    if isinstance(n, ast.Assign) and isinstance(n.targets[0], ast.Name):
+      defs.setdefault(n.targets[0].id, []).append(n)
+  checks = []
+  scal = {'t': 't', 'w_norm': 'nw', 't1': 't1', 'w1.dot(x0)': 'd',
+          'fDC2': 'f'}
+  atoms = {'w': 'w', 'x0': 'x0', 'w1': 'w1'}
+  one = Rat.const(1)
+  t_, nw, t1, d_, f_ = (Rat.sym(x) for x in ('t', 'nw', 't1', 'd', 'f'))
+  want = {'w1': LinM.atom('w').scale(one / nw), 't1': t_ / nw,
+          'error2': (f_ - t_) / t_}
+  for name, w_ in want.items():
+    if name not in defs:
+      rep.unknown(R, 'mmc._BaseMMC._fit_full:' + name, site(f),
+                  '%s not found' % name)
+      continue
+    node = defs[name][-1]
+    v = eval_expr(node.value, scal, atoms)
+    if v is None or type(v) is not type(w_):
+      rep.unknown(R, 'mmc._BaseMMC._fit_full:' + name, site(f, node),
+                  '%s = %s not derivable' % (name, ast.unparse(node.value)))
+    else:
+      rep.add(R, 'mmc._BaseMMC._fit_full:' + name, 'derived' if v == w_
+              else 'refuted', site(f, node), '' if v == w_ else
+              '%s is %r, documented %r' % (name, v, w_))
+  nd = defs.get('w_norm', [])
+  okn = nd and ast.unparse(nd[-1].value) in ('np.linalg.norm(w)',
+                                             'np.sqrt(w.dot(w))',
+                                             'np.sqrt(np.sum(w ** 2))')
+  rep.add(R, 'mmc._BaseMMC._fit_full:w_norm', 'derived' if okn else 'unknown',
+          site(f), '' if okn else 'w_norm not recognised')
+  xs = defs.get('x', [])
+  proj = [n for n in xs if ast.unparse(n.value) != 'x0']
+  keep = [n for n in xs if ast.unparse(n.value) == 'x0']
+  if len(proj) == 1 and len(keep) == 1:
+    v = eval_expr(proj[0].value, scal, atoms)
+    w_ = LinM.atom('x0') + LinM.atom('w1').scale(t1 - d_)
+    rep.add(R, 'mmc._BaseMMC._fit_full:x', 'derived' if v == w_ else
+            'refuted' if v is not None else 'unknown', site(f, proj[0]),
+            '' if v == w_ else 'projection is %r, documented %r' % (v, w_))
+    conds = astutil.path_condition(f.node, keep[0])
+    okc = 'w.dot(x0) <= t' in conds or 't >= w.dot(x0)' in conds
+    rep.add(R, 'mmc._BaseMMC._fit_full:feasible-kept', 'derived' if okc else
+            'refuted', site(f, keep[0]), '' if okc else 'x = x0 is kept '
+            'under %s, documented w.x0 <= t' % conds)
+  else:
+    rep.unknown(R, 'mmc._BaseMMC._fit_full:x', site(f), 'projection '
+                'statements not recognised')
+  fd = defs.get('fDC2', [])
+  okf = fd and ast.unparse(fd[-1].value) in ('w.dot(A.ravel())',
+                                             'np.dot(w, A.ravel())',
+                                             'A.ravel().dot(w)')
+  rep.add(R, 'mmc._BaseMMC._fit_full:fDC2', 'derived' if okf else 'unknown',
+          site(f), '' if okf else 'constraint value not recognised')
+
+
 def rule_init_flow(repo, rep):
   R = 'R-FLOW:mmc-starts-from-init'
   rep.rule(R, 'A aliases self.A_ = _initialize_metric_mahalanobis(pairs, '
@@ -256,5 +320,6 @@ def rule_diag(repo, rep):
 
 def check(repo, rep, tier):
   rule_full(repo, rep)
+  rule_projection_formula(repo, rep)
   rule_init_flow(repo, rep)
   rule_diag(repo, rep)
